@@ -621,13 +621,10 @@ def plan_probes(rng, fam, kind, spec, Nx, Ny, quick, recipe=None):
             win = [(x0, y0), (x0 + 1, y0), (x0, y0 + 1), (x0 + 1, y0 + 1)]
             k = rng.choice([2, 3, 4])
             probes.append({"fn": "measure_2x2", "ops": neutral_word(rng, fam, k), "sites": [list(rng.choice(win)) for _ in range(k)]})
-        line = [s for s in sites if s[0] == rng.randrange(Nx)] if rng.random() < 0.5 else []
+        x, y = rng.randrange(Nx), rng.randrange(Ny)
+        line = [s for s in sites if s[0] == x] if rng.random() < 0.5 else [s for s in sites if s[1] == y]
         if len(line) < 2:
-            y = rng.randrange(Ny)
-            line = [s for s in sites if s[1] == y]
-        if len(line) < 2:
-            x = rng.randrange(Nx)
-            line = [s for s in sites if s[0] == x]
+            line = [s for s in sites if s[0] == x] if Ny >= 2 else [s for s in sites if s[1] == y]
         if len(line) >= 2:
             k = rng.choice([2, 3])
             probes.append({"fn": "measure_line", "ops": neutral_word(rng, fam, k), "sites": [list(rng.choice(line)) for _ in range(k)]})
